@@ -429,3 +429,150 @@ def explain_git(*a):
 
 
 EXPLAIN["_git"] = explain_git
+
+
+# ------------------------------------------------------------------ the REUSE.toml files that take part
+# Project.from_directory discovers nested REUSE.toml files with a walk of its own; the statement's exclusions
+# (and the two include options) must apply to that walk exactly as they do to the walk for covered files.
+import reuse.global_licensing as gl  # noqa: E402
+
+
+def toml_story(d1, d2ign, d2sub, use_vcs, inc_sub, inc_meson):
+    dn = DIRNAMES[_pick_from(d1, list(range(len(DIRNAMES))))]
+    d2ign, d2sub, use_vcs, inc_sub, inc_meson = _b(d2ign), _b(d2sub), _b(use_vcs), _b(inc_sub), _b(inc_meson)
+    D1 = f"{ROOT}/{dn}"
+    D2 = f"{D1}/pkg"
+    T0, T2, H, F = f"{ROOT}/REUSE.toml", f"{D2}/REUSE.toml", f"{D2}/h.py", f"{ROOT}/top.py"
+    FakePath.FS = {ROOT: "dir", D1: "dir", D2: "dir", T0: "file", T2: "file", H: "file", F: "file"}
+    tree = {ROOT: ([dn], ["REUSE.toml", "top.py"]), D1: (["pkg"], []), D2: ([], ["REUSE.toml", "h.py"])}
+    vcs = FakeVCS({D2} if d2ign else set(), {D2} if d2sub else set()) if use_vcs else None
+    saved = (cf.Path, cf.os.walk, pj.Path, pj.Project._detect_vcs_strategy, gl.ReuseTOML.from_file, pj.Project._find_licenses)
+    cf.Path = FakePath
+    pj.Path = FakePath
+    cf.os.walk = walk_model(tree)
+    pj.Project._detect_vcs_strategy = classmethod(lambda cls, root: vcs)
+    gl.ReuseTOML.from_file = classmethod(lambda cls, path, **kw: gl.ReuseTOML(version=1, source=str(path), annotations=[]))
+    pj.Project._find_licenses = lambda self: {}
+    try:
+        project = pj.Project.from_directory(FakePath(ROOT), include_submodules=inc_sub, include_meson_subprojects=inc_meson)
+        gli = project.global_licensing
+        tomls = sorted(t.source for t in gli.reuse_tomls) if isinstance(gli, gl.NestedReuseTOML) else ([gli.source] if gli is not None else [])
+        files = sorted(str(p) for p in project.all_files())
+    finally:
+        cf.Path, cf.os.walk, pj.Path, pj.Project._detect_vcs_strategy, gl.ReuseTOML.from_file, pj.Project._find_licenses = saved
+    dname_idx = {"src": 0, "LICENSES": 6, ".git": 18, "subprojects": 24, ".reuse": 22}[dn]
+    d1_out = spec_ignored(dname_idx, "dir", "proj", use_vcs, False, False, inc_sub, inc_meson, False, None)
+    d2_out = d1_out or spec_ignored(0, "dir", dn, use_vcs, d2ign, d2sub, inc_sub, inc_meson, False, None)
+    exp_tomls = sorted([T0] + ([] if d2_out else [T2]))
+    exp_files = sorted([F] + ([] if d2_out else [H]))
+    d = {"dir": dn, "pkg_vcs_ignored": d2ign, "pkg_submodule": d2sub, "vcs": use_vcs, "include_submodules": inc_sub, "include_meson_subprojects": inc_meson, "reuse_tomls": tomls, "expected_reuse_tomls": exp_tomls, "covered_files": files, "expected_covered_files": exp_files}
+    return tomls == exp_tomls and files == exp_files, d
+
+
+def _tomls(d1: int, d2ign: bool, d2sub: bool, use_vcs: bool, inc_sub: bool, inc_meson: bool) -> bool:
+    """
+    pre: 0 <= d1 < len(DIRNAMES)
+    post: _
+    """
+    return toml_story(d1, d2ign, d2sub, use_vcs, inc_sub, inc_meson)[0]
+
+
+def _tomls_reach(d1: int, d2ign: bool, d2sub: bool, use_vcs: bool, inc_sub: bool, inc_meson: bool) -> bool:
+    """
+    pre: 0 <= d1 < len(DIRNAMES)
+    post: False
+    """
+    return toml_story(d1, d2ign, d2sub, use_vcs, inc_sub, inc_meson)[0]
+
+
+def explain_tomls(*a):
+    return toml_story(*a)[1]
+
+
+EXPLAIN["_tomls"] = explain_tomls
+
+
+# ------------------------------------------------------------------ lint-file: the spelling of root and of the named files
+# `lint-file` / Project.subset_files: a named file is examined whatever way its path (or the root) is spelled -
+# relative to the working directory, with '..' components, absolute.  Model: a path algebra in which resolve()
+# makes a path absolute and collapses '.' / '..' (no symlinks in this tree) while absolute() only prefixes the
+# working directory, as pathlib documents.
+import posixpath  # noqa: E402
+
+CWD = "/proj"
+
+
+class SpellPath(FakePath):
+    def _abs(self):
+        s = str(self)
+        return s if s.startswith("/") else CWD + "/" + s
+
+    def _k(self):
+        return FakePath.FS.get(posixpath.normpath(self._abs()))
+
+    def resolve(self, strict=False):
+        return SpellPath(posixpath.normpath(self._abs()))
+
+    def absolute(self):
+        return SpellPath(self._abs())
+
+
+ROOT_SPELL = ["/proj", ".", "src/..", "/proj/src/..", "/proj/./"]
+FILE_SPELL = ["/proj/src/a.py", "src/a.py", "./src/a.py", "src/../src/a.py", "/proj/src/../src/a.py", "src/./a.py"]
+
+
+def spelled_walk(tree_by_real):
+    """os.walk over the model tree, for a top spelled any way: directory names are joined to the top as given."""
+
+    def walk(top, *a, **k):
+        stack = [str(top)]
+        while stack:
+            cur = stack.pop()
+            real = posixpath.normpath(cur if cur.startswith("/") else CWD + "/" + cur)
+            dirs, files = tree_by_real.get(real, ([], []))
+            dirs, files = list(dirs), list(files)
+            yield cur, dirs, files
+            for d in reversed(dirs):
+                stack.append(posixpath.join(cur, d))
+
+    return walk
+
+
+def subset_story(r, s, other):
+    root = ROOT_SPELL[_pick_from(r, list(range(len(ROOT_SPELL))))]
+    named = FILE_SPELL[_pick_from(s, list(range(len(FILE_SPELL))))]
+    FakePath.FS = {"/proj": "dir", "/proj/src": "dir", "/proj/src/a.py": "file", "/proj/src/b.py": "file", "/proj/top.py": "file", "/proj/docs": "dir", "/proj/docs/c.py": "file"}
+    tree = {"/proj": (["docs", "src"], ["top.py"]), "/proj/src": ([], ["a.py", "b.py"]), "/proj/docs": ([], ["c.py"])}
+    subset = [named] + (["docs/../top.py"] if _b(other) else [])
+    saved = (cf.Path, cf.os.walk)
+    cf.Path = SpellPath
+    cf.os.walk = spelled_walk(tree)
+    try:
+        got = sorted(posixpath.normpath(p._abs()) for p in cf.iter_files(SpellPath(root), subset_files=subset))
+    finally:
+        cf.Path, cf.os.walk = saved
+    exp = sorted(["/proj/src/a.py"] + (["/proj/top.py"] if _b(other) else []))
+    return got == exp, {"cwd": CWD, "root": root, "named_files": subset, "examined": got, "expected": exp}
+
+
+def _subset(r: int, s: int, other: bool) -> bool:
+    """
+    pre: 0 <= r < len(ROOT_SPELL) and 0 <= s < len(FILE_SPELL)
+    post: _
+    """
+    return subset_story(r, s, other)[0]
+
+
+def _subset_reach(r: int, s: int, other: bool) -> bool:
+    """
+    pre: 0 <= r < len(ROOT_SPELL) and 0 <= s < len(FILE_SPELL)
+    post: False
+    """
+    return subset_story(r, s, other)[0]
+
+
+def explain_subset(*a):
+    return subset_story(*a)[1]
+
+
+EXPLAIN["_subset"] = explain_subset
